@@ -324,6 +324,40 @@ func c10fReadOut(c *Ctx) {
 			}
 		}
 	}
+	// a rendered piece is written once: no way leads from a write of a computed text to a second
+	// write of the same value without a new turn of the enclosing loop (a command that is
+	// emitted twice runs twice)
+	for _, fn := range c.W.FuncsOf("emitter") {
+		if isTestFunc(c.W, fn) || len(fn.Blocks) == 0 {
+			continue
+		}
+		type wsite struct {
+			call ssa.CallInstruction
+			arg  ssa.Value
+		}
+		var ws []wsite
+		for _, ci := range callsIn(fn) {
+			if nm := calleeName(ci); nm == "(*strings.Builder).WriteString" {
+				a := ci.Common().Args[1]
+				if _, isC := a.(*ssa.Const); !isC {
+					ws = append(ws, wsite{ci, a})
+				}
+			}
+		}
+		k := 0
+		for _, w1 := range ws {
+			for _, w2 := range ws {
+				if w1.call == w2.call || w1.arg != w2.arg || w1.call.Common().Args[0] != w2.call.Common().Args[0] {
+					continue
+				}
+				def, _ := w1.arg.(ssa.Instruction)
+				if _, found := existsPath(pathQuery{from: after(w1.call.(ssa.Instruction)), target: func(in ssa.Instruction) bool { return in == w2.call.(ssa.Instruction) }, stopAt: func(in ssa.Instruction) bool { return def != nil && in == def }}); found {
+					k++
+					c.Bad(fmt.Sprintf("written-once/%s#%d", c.W.FuncKey(fn), k), c.W.Pos(w2.call.Pos()), c.W.FuncKey(fn)+" writes "+pretty(c.term(fn, w1.arg))+" a second time into the same builder (first at "+c.W.Pos(w1.call.Pos())+"): the piece of output — a command, a comparison — would appear twice")
+				}
+			}
+		}
+	}
 	n := 0
 	for _, fn := range c.W.FuncsOf("emitter") {
 		if isTestFunc(c.W, fn) || len(fn.Blocks) == 0 || fn.Signature.Results().Len() == 0 {
